@@ -182,9 +182,11 @@ func ZZ_C16_cancel() {
 		// must be answered as if alone, whatever the abandoned one does meanwhile
 		phase2 = true
 		_ = lateFail
+		zzRace(true) // the abandoned execution must not touch what the second request uses
 		zzSched(true, zzParam("P", 1))
 		r2 := Do(Params{Schema: schema, RequestString: "{ f1 f2 f3 }"})
 		zzSched(false, 0)
+		zzRace(false)
 		m2, _ := r2.Data.(map[string]interface{})
 		zzAssert(len(r2.Errors) == 0 && len(m2) == 3 && m2["f1"] == 1 && m2["f2"] == 2 && m2["f3"] == 3, "a request served while an abandoned execution is still running is not answered as if alone")
 		zzQuiesce()
